@@ -269,6 +269,11 @@ ppl_@CLASS@_has_@UPPERLOWER@_bound
  ppl_Coefficient_t ext_d,
  int* pclosed) try {
   const @CPP_CLASS@& pps = *to_const(ps);
+  if (var >= pps.space_dimension()) {
+    throw std::invalid_argument("ppl_@CLASS@_has_@UPPERLOWER@_bound"
+                                "(ps, var, ext_n, ext_d, pclosed): "
+                                "var is not a space dimension of ps");
+  }
   Coefficient& eext_n = *to_nonconst(ext_n);
   Coefficient& eext_d = *to_nonconst(ext_d);
   bool closed;
